@@ -10,18 +10,18 @@ A line is modelled as its *body* (`List Char`, everything except a final `'\n'`)
 explicit function that reproduces what the backtracking regex (leftmost match, greedy/lazy priorities)
 does on such a line:
 
-* `ruleIbm`      — `(@PROCESS.*\n)` → `\n`
+* `ruleIbm`      — `(^\s*@PROCESS.*\n)` → `\n`
 * `ruleStrPP`    — `(?P<pp>^\s*#.*__(?:FILE|FILENAME|DATE|VERSION)__)|(?P<else>__(?:FILE|…)__)`,
                    replacement `m['pp'] or '"' + m['else'] + '"'`
-* `ruleIntPP`    — plain `str.replace('__LINE__', '0')`
+* `ruleIntPP`    — `(?P<pp>^\s*#.*__LINE__)|(?P<else>__LINE__)`, replacement `m['pp'] or '0'`
 * `ruleConvert`  — `(?P<ws>^\s*)(?P<pre>OPEN\s*\(.*?)(?P<convert>,?\s*CONVERT=['"](?:BIG|LITTLE)_ENDIAN['"]\s*)(?P<post>.*?$)`, `re.I`
 * `ruleNewunit`  — `(?P<ws>^\s*)(?P<open>OPEN\s*\()(?P<args1>.*?)(?P<delim>,)?(?P<newunit_key>,?\s*NEWUNIT=)(?P<newunit_val>.*?(?=,|\)|&))(?P<args2>.*?$)`, `re.I`
-* `ruleFypp`     — `(# [1-9].*\".*\.(?:fypp|hypp)\"(?:\s+\d+)?\n)` → `''`
+* `ruleFypp`     — `(^\s*# [1-9].*\".*\.(?:fypp|hypp)\"(?:\s+\d+)?\n)` → `''`
 
 `reinsertConvert` / `reinsertNewunit` model the text that `reinsert_convert_endian` /
 `reinsert_open_newunit` give the statement node of that line (single-line statements: the `&`
 continuation branch is not modelled), `effective` what the statement text is after both
-post-processing callbacks ran in registry order.
+post-processing callbacks ran in *reverse* registry order (`sanitize_ir` undoes the last rewrite first).
 
 `segments` is a Fortran free-form segmenter of one line into pieces `code ++ protected` where the
 protected part is a character literal (`'…'` or `"…"`; a doubled quote inside a literal shows up as two
@@ -89,18 +89,9 @@ def intToks : List Line := [tLine]
 
 /-! ## rule 1: IBM directives -/
 
-/-- text before the first occurrence of `pat` -/
-def beforeSub (pat : Line) : Line → Option Line
-  | [] => if (litLen pat []).isSome then some [] else none
-  | c :: cs => if (litLen pat (c :: cs)).isSome then some [] else (beforeSub pat cs).map (c :: ·)
-
-/-- returns body, nl, fired -/
+/-- returns body, nl, fired: the pattern is anchored (`^\s*@PROCESS`), the whole line is replaced by `\n` -/
 def ruleIbm (b : Line) (nl : Bool) : Line × Bool × Bool :=
-  if nl then
-    match beforeSub tProcess b with
-    | some pre => (pre, true, true)
-    | none => (b, nl, false)
-  else (b, nl, false)
+  if nl && (litLen tProcess (b.dropWhile isWs)).isSome then ([], true, true) else (b, nl, false)
 
 /-! ## generic left-to-right, non-overlapping token scan (used by rules 2 and 3) -/
 
@@ -141,32 +132,34 @@ inductive PPHit where
 deriving Repr, DecidableEq
 
 /-- offset of the end of the token with the rightmost start (what `.*` + backtracking finds) -/
-def lastTokEnd : Line → Option Nat
+def lastTokEnd (toks : List Line) : Line → Option Nat
   | [] => none
   | c :: cs =>
-    match lastTokEnd cs with
+    match lastTokEnd toks cs with
     | some e => some (e + 1)
-    | none => (firstTok strToks (c :: cs)).map (·.length)
+    | none => (firstTok toks (c :: cs)).map (·.length)
 
-/-- `^\s*#.*__TOKEN__` matches: length of the `pp` group -/
-def directiveLen (b : Line) : Option Nat :=
+/-- `^\s*#.*TOKEN` matches: length of the `pp` group -/
+def directiveLen (toks : List Line) (b : Line) : Option Nat :=
   match b.dropWhile isWs with
-  | '#' :: r => (lastTokEnd r).map (· + (wsLen b + 1))
+  | '#' :: r => (lastTokEnd toks r).map (· + (wsLen b + 1))
   | _ => none
 
 def quoteTok (t : Line) : Line := '"' :: t ++ ['"']
 
-def ruleStrPP (b : Line) : Line × List PPHit :=
-  match directiveLen b with
+/-- a rule of the shape `(?P<pp>^\s*#.*TOK)|(?P<else>TOK)` with replacement `m['pp'] or f(m['else'])` -/
+def rulePP (toks : List Line) (f : Line → Line) (b : Line) : Line × List PPHit :=
+  match directiveLen toks b with
   | some n => (b, [PPHit.pp (b.take n)])
-  | none => (scan strToks quoteTok 0 b, (scanHits strToks 0 b).map PPHit.els)
+  | none => (scan toks f 0 b, (scanHits toks 0 b).map PPHit.els)
 
-/-! ## rule 3: `__LINE__` → `0` -/
+def ruleStrPP (b : Line) : Line × List PPHit := rulePP strToks quoteTok b
+
+/-! ## rule 3: `__LINE__` → `0` (outside `#` directive lines) -/
 
 def zeroTok (_ : Line) : Line := ['0']
 
-def ruleIntPP (b : Line) : Line × Bool :=
-  (scan intToks zeroTok 0 b, hasSub tLine b)
+def ruleIntPP (b : Line) : Line × List PPHit := rulePP intToks zeroTok b
 
 /-! ## rules 4 and 5: OPEN statements -/
 
@@ -329,24 +322,16 @@ def fyppAt : Line → Bool
   | '#' :: ' ' :: d :: r => isD19 d && fyppRest false r
   | _ => false
 
-/-- leftmost start of a match -/
-def fyppFind : Line → Option Nat
-  | [] => none
-  | c :: cs => if fyppAt (c :: cs) then some 0 else (fyppFind cs).map (· + 1)
-
+/-- anchored pattern (`^\s*# [1-9]…`): the whole line including its newline is deleted -/
 def ruleFypp (b : Line) (nl : Bool) : Line × Bool × Bool :=
-  if nl then
-    match fyppFind b with
-    | some s => (b.take s, false, true)
-    | none => (b, nl, false)
-  else (b, nl, false)
+  if nl && fyppAt (b.dropWhile isWs) then ([], false, true) else (b, nl, false)
 
 /-! ## the pipeline on one line -/
 
 structure Info where
   ibm : Bool
   strpp : List PPHit
-  intpp : Bool
+  intpp : List PPHit
   convert : Option ConvertGroups
   newunit : Option NewunitGroups
   fypp : Bool
@@ -359,7 +344,7 @@ structure Out where
 deriving Repr, DecidableEq
 
 /-- the rules in registry order.  Faithful for a one-line source; in a longer source a rule that removes the
-newline (rule 4 in its corner case, rule 6) merges the line with the next one before the following rule runs. -/
+newline (rule 4 in its corner case; rule 6 deletes whole lines) merges the line with the next one before the following rule runs. -/
 def sanitizeLine (b : Line) (nl : Bool) : Out :=
   let r1 := ruleIbm b nl
   let r2 := ruleStrPP r1.1
@@ -381,14 +366,15 @@ def reinsertConvert (g : ConvertGroups) : Line := g.ws ++ g.pre ++ g.convert ++ 
 def reinsertNewunit (g : NewunitGroups) : Line :=
   g.ws ++ g.opn ++ g.args1 ++ (g.delim.getD []) ++ g.key ++ g.val ++ g.args2
 
-/-- text of the statement on this line after `sanitize_ir` applied the post-processing callbacks in registry
-order (`reinsert_convert_endian` first, `reinsert_open_newunit` second: the second overwrites the first) -/
+/-- text of the statement on this line after `sanitize_ir` applied the post-processing callbacks in *reverse*
+registry order (`reinsert_open_newunit` first, then `reinsert_convert_endian`, whose text is built from the match
+taken before NEWUNIT was moved) -/
 def effective (o : Out) : Line :=
-  match o.info.newunit with
-  | some g => reinsertNewunit g
+  match o.info.convert with
+  | some g => reinsertConvert g
   | none =>
-    match o.info.convert with
-    | some g => reinsertConvert g
+    match o.info.newunit with
+    | some g => reinsertNewunit g
     | none => o.text
 
 /-! ## segmenter -/
@@ -440,21 +426,6 @@ def tokInKind (k : Kind) (l : Line) : Bool :=
 def KnownTokInString (l : Line) : Bool := tokInKind .str l
 def KnownTokInComment (l : Line) : Bool := tokInKind .comment l
 
-/-- `@PROCESS` inside a literal or comment (rule 1 deletes the rest of the line) -/
-def processInProt (l : Line) : Bool :=
-  (segments l).any fun p => hasSub tProcess p.prot
-
-/-- both OPEN rules fire on the line: the NEWUNIT re-insertion overwrites the CONVERT re-insertion -/
-def KnownBothOpen (l : Line) (nl : Bool) : Bool :=
-  let o := sanitizeLine l nl
-  o.info.convert.isSome && o.info.newunit.isSome
-
-/-- rule 1 or rule 6 fired although the pattern is not the whole line (a non-empty rest of the line survives) -/
-def KnownDirectiveMidline (l : Line) (nl : Bool) : Bool :=
-  let r1 := ruleIbm l nl
-  let o := sanitizeLine l nl
-  (r1.2.2 && !r1.1.isEmpty) || (o.info.fypp && !o.text.isEmpty)
-
 /-- an OPEN line that carries `CONVERT=` / `NEWUNIT=` inside a literal or comment -/
 def KnownOpenKeyInProt (l : Line) : Bool :=
   (openHead l).isSome && (segments l).any fun p => hasCiSub tConvert p.prot || hasCiSub tNewunit p.prot
@@ -467,12 +438,6 @@ def KnownConvertFirst (l : Line) (nl : Bool) : Bool :=
      | '(' :: _ => true
      | _ => false)
   | none => false
-
-/-- `__LINE__` inside a `#` preprocessor directive line -/
-def KnownLineInDirective (l : Line) : Bool :=
-  (match l.dropWhile isWs with
-   | '#' :: _ => true
-   | _ => false) && hasSub tLine l
 
 def isIdentChar (c : Char) : Bool := c.isAlphanum || c == '_'
 
